@@ -4,10 +4,10 @@ import pool_common as pc
 pc.install(globals(), "C07", "C07", "error modes",
     rule=("Map and FMap x {Lift, Try} x EVERY subset of failing positions of inputs of length 0..4 (quick) / 0..5 (thorough), distinct elements, "
           "plus random longer inputs with modular failure predicates; Emit x {Lift, Try} and Unfold (fail-fast) with failing indices/seeds on "
-          "virtual time; capacities 0..2; random interleavings of receives on the value and the error channel from VERIF_SEED, drained to "
+          "virtual time; pipe.StdErr fed with nil / non-nil errors (log records observed through slog), with and without cancel; capacities 0..2; random interleavings of receives on the value and the error channel from VERIF_SEED, drained to "
           "completion. Distinct by full observed trace; non-trivial when a value or an error was delivered"),
     claim={
-        "text": "Theorems proved by the Coq kernel for EVERY failure pattern (the user function is an arbitrary function into Ok|Err), input, capacity and schedule: under Lift exactly the results before the first failure, that error once, nothing processed further; under Try one error per failing element and no output for it, the normal output for all others; both streams keep input order (prefix in every reachable state, equality and closure on completion); the fail-fast hand-off `exx <- err` never blocks; Unfold/Emit likewise (exact seeds / indices). Tied to the code by trace acceptance with exhaustive failing subsets.",
+        "text": "Theorems proved by the Coq kernel for EVERY failure pattern (the user function is an arbitrary function into Ok|Err), input, capacity and schedule: under Lift exactly the results before the first failure, that error once, nothing processed further; under Try one error per failing element and no output for it, the normal output for all others; both streams keep input order (prefix in every reachable state, equality and closure on completion); the fail-fast hand-off `exx <- err` never blocks; Unfold/Emit likewise (exact seeds / indices); pipe.StdErr is a reader that never leaves a sender blocked, reads in order, ignores cancel and returns exactly at close. Tied to the code by trace acceptance with exhaustive failing subsets.",
         "design_ref": "DESIGN.md 3/C07",
         "note": "Trusted: Coq kernel; Pool machine; harness. Assumed: the error channel is read (the property's own proviso) and scheduler fairness for 'does not block forever'.",
         "technique": "Coq proof (invariants over executions, list reasoning) + trace-acceptance correspondence",
